@@ -168,6 +168,7 @@ class CSym(object):
         self.genv = {}                        # file-scope variables that are not const: value at the current point (entry value = arbitrary: any call history)
         self.ghost = {}                       # ghost state attached by callee contracts to objects (keyed by variable name)
         self._isqrt = {}
+        self.isqrt_defs = {}     # name of an integer-square-root variable -> its radicand (for exact evaluation on concrete inputs)
         self.monotone_tables = set()   # names of int location tables assumed non-decreasing and non-negative (a requires clause of the caller)
         self.hyps = []                        # the function's `requires` (used when separating a read from an earlier write)
         self.private_names = set()            # scalars / pointers declared inside a parallel region or named in private-like clauses
@@ -1027,6 +1028,7 @@ class CSym(object):
             if key not in self._isqrt:
                 k = fresh("isqrt")
                 self._isqrt[key] = k
+                self.isqrt_defs[k.args[0]] = t.args[0]
                 self.side.append(("assume", tm.mk_and(tm.mk_le(tm.ZERO, k), tm.mk_le(k * k, t.args[0]), tm.mk_lt(t.args[0], (k + 1) * (k + 1))), (), (), self.fn_stack[-1] if self.fn_stack else "?"))
             return self._isqrt[key]
         return tm.mk_fn("trunc", t)
